@@ -38,7 +38,23 @@ var solvers = []solverDef{
 	{"cvc5-1.0", func(f string, t int) []string {
 		return []string{"/usr/bin/cvc5", fmt.Sprintf("--tlimit=%d", t*1000), "--lang=smt2", f}
 	}, "(set-logic ALL)\n"},
+	// further attempts used only by the second-chance pass: the same solvers with other random seeds (the search of
+	// an SMT solver on quantified goals is sensitive to incidental ordering; an unsat answer is an answer whatever the seed)
+	{"z3-5.1.0/seed7", func(f string, t int) []string {
+		return []string{"z3-new", fmt.Sprintf("-T:%d", t), "smt.random_seed=7", "sat.random_seed=7", "-smt2", f}
+	}, ""},
+	{"z3-5.1.0/seed42", func(f string, t int) []string {
+		return []string{"z3-new", fmt.Sprintf("-T:%d", t), "smt.random_seed=42", "sat.random_seed=42", "-smt2", f}
+	}, ""},
+	{"z3-4.8.12/seed7", func(f string, t int) []string {
+		return []string{"/usr/bin/z3", fmt.Sprintf("-T:%d", t), "smt.random_seed=7", "sat.random_seed=7", "-smt2", f}
+	}, ""},
 }
+
+// solver sets: the ordinary race and the widened one of the second-chance pass
+var raceSet = []int{1, 2, 0}
+var retrySet = []int{1, 2, 0, 3, 4, 5}
+var curRace = raceSet
 
 var tmpDir string
 var tmpOnce sync.Once
@@ -216,7 +232,7 @@ func splitConj(f string) []string {
 	if !strings.HasPrefix(body, "(and ") {
 		return nil
 	}
-	cs := sexprArgs(body)
+	cs := flattenAnd(body)
 	if len(cs) < 2 {
 		return nil
 	}
@@ -226,6 +242,18 @@ func splitConj(f string) []string {
 			c = sx("=>", guards[i], c)
 		}
 		out = append(out, c)
+	}
+	return out
+}
+
+// flattenAnd returns the conjuncts of a (possibly nested) conjunction "(and (and a b) c)" -> a, b, c
+func flattenAnd(f string) []string {
+	if !strings.HasPrefix(f, "(and ") {
+		return []string{f}
+	}
+	var out []string
+	for _, c := range sexprArgs(f) {
+		out = append(out, flattenAnd(c)...)
 	}
 	return out
 }
@@ -330,7 +358,7 @@ func discharge(o *Obl, timeoutS int) *SolveResult {
 		}
 	}
 	// rung 1: race all solvers on the whole obligation
-	st, sv, out, _ := race(text, timeoutS, o.Name, []int{1, 2, 0})
+	st, sv, out, _ := race(text, timeoutS, o.Name, curRace)
 	if st == "unsat" {
 		return &SolveResult{Status: "proved", Solver: sv, Ms: time.Since(t0).Milliseconds(), Rung: "whole", Pieces: 1}
 	}
@@ -349,7 +377,7 @@ func discharge(o *Obl, timeoutS int) *SolveResult {
 			wg.Add(1)
 			go func(pi int, p string) {
 				defer wg.Done()
-				s, v, oo, _ := race(o.smt(p, true), timeoutS, fmt.Sprintf("%s.p%d", o.Name, pi), []int{1, 2, 0})
+				s, v, oo, _ := race(o.smt(p, true), timeoutS, fmt.Sprintf("%s.p%d", o.Name, pi), curRace)
 				mu.Lock()
 				defer mu.Unlock()
 				if s != "unsat" {
@@ -439,6 +467,8 @@ func dischargeAll(obls []*Obl, timeoutS int) map[*Obl]*SolveResult {
 		}
 	}
 	sort.Slice(again, func(i, j int) bool { return res[again[i]].Ms < res[again[j]].Ms })
+	curRace = retrySet
+	defer func() { curRace = raceSet }()
 	for _, o := range again {
 		r := discharge(o, timeoutS*4)
 		r.Rung += "+retry"
